@@ -69,9 +69,9 @@ deriving Inhabited
 def stepAction (env : Env) (a : Action) (tokens : Array Nat) : M (String × Array Nat) := do
   match a with
   | .create i =>
-    match ← elabInstr [] .unit i with
+    match ← elabInstrM env [] .unit i with
     | some n =>
-      modify fun s => { s with top := s.top.push n }
+      modify fun s => { s with top := s.top.push n, handles := n :: s.handles }
       pure (s!"ok #{n}", tokens)
     | none => pure ("ok", tokens)
   | .observe n =>
@@ -132,9 +132,15 @@ def stepAction (env : Env) (a : Action) (tokens : Array Nat) : M (String × Arra
     let dep ← expertAddDependency env fuelDefault n c cb
     pure (s!"ok d{dep}", tokens)
   | .dropAll => do
-    -- every handle and the state are dropped; the model has nothing left to say
+    -- every handle and the state are dropped: nothing may stay allocated
     modify fun s => { s with alive := false }
-    pure ("ok", tokens)
+    pure ("ok live=0", tokens)
+  | .dropHandle n => do
+    let n ← resolveOpnd [] n
+    if (← get).handles.contains n then
+      modify fun s => { s with handles := s.handles.erase n }
+      pure ("ok", tokens)
+    else pure ("noop", tokens)
   | .expectPanic _ => pure ("ok", tokens)
   | .arm k => do
     modify fun s => { s with panicCountdown := some k }
@@ -156,7 +162,8 @@ def traceAction (env : Env) (idx : Nat) (a : Action) (rs : RunState) : RunState 
   let reads := joinWith " " ((List.range s1.observers.size).map fun o =>
     if (s1.observers[o]?.map (·.clones)).getD 0 == 0 || !s1.alive then s!"o{o}=gone"
     else s!"o{o}={renderRead (s1.tryGetValue env o)}")
-  let snaps := (List.range s1.nodes.size).map fun n => s!"{idx} snap {renderNode env s1 n}"
+  let alive := s1.aliveSet
+  let snaps := ((List.range s1.nodes.size).filter alive.contains).map fun n => s!"{idx} snap {renderNode env s1 n}"
   let lines := if s1.alive then
       [s!"{idx} api {api}"] ++ evs ++ [s!"{idx} read {reads}"] ++ snaps
         ++ [s!"{idx} heap {renderHeap s1}", s!"{idx} stats {renderStats s1}"]
